@@ -126,9 +126,9 @@ def gen_cases(tier, seed):
         for L in range(1, Lmax + 1):
             for B in range(1, Bmax + 1):
                 cases.append({'kind': 'enum', 'S': S, 'L': L, 'B': B, 'frac': frac, 'seed': seed})
-    for i in range(32 if tier == 'quick' else 320):
+    for i in range(32 if tier == 'quick' else 1600):
         cases.append({'kind': 'random', 'i': i, 'seed': seed, 'n': 150 if tier == 'quick' else 600})
-    for i in range(16 if tier == 'quick' else 64):
+    for i in range(16 if tier == 'quick' else 600):
         cases.append({'kind': 'contigs', 'i': i, 'seed': seed})
     for i in range(16 if tier == 'quick' else 64):
         cases.append({'kind': 'aux', 'i': i, 'seed': seed})
